@@ -10,12 +10,15 @@ as set differences.
 from .engine import flat_events
 from .events import frame_type, frame_fields
 from .e3 import pc_truth
-from .terms import show, mentions
+from .terms import show, mentions, walk
 
 SOURCES = ("allow_list", "usage_db", "blur_usage", "log_requests", "log_file")
 
 
 def polarity(pc, source):
+    if isinstance(source, tuple) and source and source[0] == "term":
+        # an arbitrary decided term as the source of the comparison
+        return pc_truth(pc).get(source[1])
     t = pc_truth(pc).get(("cfg", source))
     return t
 
@@ -160,3 +163,147 @@ def _short(item):
     if k == "end":
         return "the end of the handler (%s)" % (item[1],)
     return " ".join(str(x) for x in item[:3])
+
+
+def _state_refs(t):
+    """(class, attr) of every in-memory attribute / registry term inside t"""
+    out = set()
+    for x in walk(t):
+        if isinstance(x, tuple) and len(x) >= 3 and x[0] in ("attr", "reg") and \
+                isinstance(x[1], tuple) and x[1] and x[1][0] == "obj" and \
+                isinstance(x[2], str):
+            out.add((x[1][1], x[2]))
+        elif isinstance(x, tuple) and len(x) >= 3 and x[0] == "obj" and \
+                isinstance(x[2], tuple) and len(x[2]) >= 3 and x[2][0] == "held" and \
+                isinstance(x[2][1], tuple) and x[2][1] and x[2][1][0] == "obj":
+            # the object a holder attribute refers to: reading it reads the attribute
+            out.add((x[2][1][1], x[2][2]))
+    return out
+
+
+def relevant_attrs(model, cls):
+    """attributes of `cls` that some decision or some channel-visible datum of
+    a runtime path depends on"""
+    values, keys, _ = _state_index(model)
+    return set(a for (c, a) in list(values) + list(keys) if c == cls)
+
+
+def _state_index(model):
+    """one pass over all runtime paths: which channel-visible data and which
+    decisions mention which (class, attr)"""
+    idx = getattr(model, "_state_index", None)
+    if idx is not None:
+        return idx
+    values, keys = {}, {}
+    nev = [0]
+    seen_pc = set()
+    seen_ev = set()
+
+    def note_pc(pc, where):
+        if id(pc) in seen_pc:
+            return
+        seen_pc.add(id(pc))
+        for (t, b, site) in pc:
+            refs = _state_refs(t)
+            if not refs:
+                continue
+            for kt in pc_truth(((t, b, site),)):
+                for r in _state_refs(kt):
+                    keys.setdefault(r, {}).setdefault(kt, set()).add(where)
+
+    def scan(events, where):
+        for e, _ in flat_events(events):
+            if id(e) in seen_ev:
+                continue
+            seen_ev.add(id(e))
+            nev[0] += 1
+            data = []
+            if e["k"] == "sql" and (e["stmt"].mutating or e["db"] == "chan"):
+                data = list(e.get("params") or ())
+            elif e["k"] == "send":
+                ff = frame_fields(e) or {}
+                data = [v for k, v in ff.items() if k != "server_tx"]
+                if not ff:
+                    data = list(e.get("args") or ()) + [v for _, v in (e.get("kwargs") or ())]
+            elif e["k"] in ("reg_set", "reg_del"):
+                data = [e.get("key")] if e.get("key") is not None else []
+            elif e["k"] == "loop":
+                for alt in e["alts"]:
+                    note_pc(tuple(alt["pc"]), where)
+            for d in data:
+                if isinstance(d, tuple):
+                    for r in _state_refs(d):
+                        values.setdefault(r, []).append(
+                            (where, "%s at %s:%d carries the state (%s)" % (
+                                e["k"], e["site"][0], e["site"][1], show(d)[:60])))
+    for en in model.runtime_entries():
+        for p in model.paths(en):
+            scan(p.events, en)
+            note_pc(p.pc, en)
+    idx = (values, keys, nev[0])
+    model._state_index = idx
+    return idx
+
+
+def state_influence(model, cls, attr):
+    """Does in-memory state cls.attr influence anything channel-visible?
+    Returns (violations, stats): value flow -- a channel-visible event whose
+    data mentions the state; control flow -- a decision on the state after
+    which the projected traces differ (the trace-set comparison of E5 with
+    the decided term as the source)."""
+    values, keys, nev = _state_index(model)
+    viol = [("value", w, d) for (w, d) in values.get((cls, attr), ())]
+    e5 = E5(model)
+    mykeys = keys.get((cls, attr), {})
+    for kt, where_set in mykeys.items():
+        src = ("term", kt)
+        e5.allowed[src] = ()
+        n0 = len(e5.violations)
+        for en in sorted(where_set):
+            e5.compare_paths(en, src)
+        for (source, where, detail, sample) in e5.violations[n0:]:
+            viol.append(("control", where, "decided on %s: %s" % (show(kt)[:60],
+                                                                   detail.replace(str(src), "it"))))
+    return viol, {"events": nev, "decisions": len(mykeys), "groups": e5.groups_compared}
+
+
+def result_sites_visible(model):
+    """sites of SELECT statements whose result reaches something channel-visible:
+    the data of a frame, of a mutating channel statement or of a registry key, or
+    the path condition of such an event"""
+    idx = getattr(model, "_result_sites", None)
+    if idx is not None:
+        return idx
+    out = set()
+    seen = set()
+
+    def refs(t):
+        for x in walk(t):
+            if isinstance(x, tuple) and len(x) >= 2 and x[0] in ("row", "rows", "cursor") \
+                    and isinstance(x[1], tuple):
+                out.add(x[1][:2])
+    for en in model.runtime_entries():
+        for p in model.paths(en):
+            for e, _ in flat_events(p.events):
+                if id(e) in seen:
+                    continue
+                seen.add(id(e))
+                data = None
+                if e["k"] == "sql" and e["db"] == "chan" and e["stmt"].mutating:
+                    data = list(e.get("params") or ())
+                elif e["k"] == "send":
+                    ff = frame_fields(e) or {}
+                    data = [v for k, v in ff.items() if k != "server_tx"]
+                elif e["k"] in ("reg_set", "reg_del"):
+                    data = [e.get("key")] if e.get("key") is not None else []
+                elif e["k"] == "raise":
+                    data = []
+                if data is None:
+                    continue
+                for d in data:
+                    if isinstance(d, tuple):
+                        refs(d)
+                for (t, b, site) in e.get("pc", ()):
+                    refs(t)
+    model._result_sites = out
+    return out
